@@ -93,6 +93,7 @@ WHITELIST = [
     ("merge_indexed_journalled_entries_count", ["arr", "arr", "barr", "arr", "arr"]),
     ("compare_indexed_rows_for_journalling", ["arr", "arr", "arr", "arr", "arr", "arr", "barr"]),
     ("categorical_transform", ["arr", "int", "arr2", "arr", "arr", "arr", "arr", "arr"]),
+    ("leaky_categorical_transform", ["arr", "arr", "arr", "int", "arr2", "arr", "arr", "arr", "arr", "arr"]),
 ]
 
 LEAN_T = {"int": "Int", "bool": "Bool", "arr": "List Int", "barr": "List Bool", "opt_arr": "Option (List Int)",
